@@ -50,6 +50,9 @@ def panic_kind(x):
     if c in ("core::option::Option::unwrap", "core::option::Option::expect", "core::result::Result::unwrap",
              "core::result::Result::expect"):
         return c.split("::")[-2] + "::" + c.split("::")[-1]
+    if c.rsplit("::", 1)[-1] in ("unwrap", "expect") and not c.startswith(("core::option::Option::", "core::result::Result::")):
+        # unwrap / expect of some other carrier (chrono's LocalResult, ...): panics on the empty case all the same
+        return c.split("::")[-2].split("<")[0] + "::" + c.rsplit("::", 1)[-1]
     if c in ("core::ops::arith::Add::add", "core::ops::arith::Sub::sub", "core::ops::arith::AddAssign::add_assign",
              "core::ops::arith::SubAssign::sub_assign") and re.search(r"Time|Duration|Instant", x.get("self_ty") or ""):
         return "timearith:" + (x.get("self_ty") or "")
